@@ -226,6 +226,8 @@ type hrWorld struct {
 	prevX          *hrExpect
 	curX           *hrExpect
 	lateAck        int32
+	abort          int32
+	maxSessions    int
 	oldClosed      bool
 	monViol        [][2]string
 	monKnown       []string
@@ -245,6 +247,8 @@ var (
 	hrOrigAck  protocolHandler
 	hrHooksOn  bool
 	hrGlobalSeq int64
+	hrPanicMu   sync.Mutex
+	hrPanics    []string
 )
 
 func hrLookupSM(sm *SessionManager) *hrWorld {
@@ -274,12 +278,21 @@ func hrInstall() {
 			w.hrq[p.session] = append(w.hrq[p.session], p)
 			w.mu.Unlock()
 		}
-		protocolHandlers[typeHotRestartAck] = func(s *Session, hdr header, buf []byte) (int, bool, error) {
+		protocolHandlers[typeHotRestartAck] = func(s *Session, hdr header, buf []byte) (n int, stop bool, err error) {
 			var w *hrWorld
 			if s.listener != nil {
 				w = hrLookupL(s.listener)
 			}
 			if w == nil || !w.intercept {
+				// a panic here would take the whole process down (epoll goroutine): turn it into a verdict
+				defer func() {
+					if r := recover(); r != nil {
+						hrPanicMu.Lock()
+						hrPanics = append(hrPanics, fmt.Sprintf("handleHotRestartAck panicked on session %s (client=%v, listener set=%v): %v", s.name, s.isClient, s.listener != nil, r))
+						hrPanicMu.Unlock()
+						n, stop, err = headerSize+epochIDLen, false, nil
+					}
+				}()
 				return hrOrigAck(s, hdr, buf)
 			}
 			if len(buf) < epochIDLen {
@@ -788,6 +801,10 @@ func (w *hrWorld) startMonitor(known []string) {
 					note("done-without-acks", fmt.Sprintf("the listener reports the hot restart of epoch %d done while live sessions %v it had to notify have not acknowledged", ep, missing))
 				}
 			}
+			if n := w.sessCount(); w.maxSessions > 0 && n > w.maxSessions {
+				note("extra-session", fmt.Sprintf("%d sessions have been established; no behaviour of the model creates more than %d here: sessions are being created that nothing asked for", n, w.maxSessions-2))
+				atomic.StoreInt32(&w.abort, 1)
+			}
 			if cnt < 0 {
 				note("ack-count-negative", fmt.Sprintf("hotRestartAckCount is %d (listener state %s, epoch %d)", cnt, hrStateName[st], ep))
 			}
@@ -816,6 +833,23 @@ func (w *hrWorld) startMonitor(known []string) {
 						w.monMaxHot = d
 					}
 					mSince = time.Time{}
+					// the manager has just left the hot-restart state. If it kept its reserve pools it declared the hand-over
+					// complete (the time-out path drops them): then every pool must have been swapped to the announced epoch
+					w.sm.RLock()
+					if len(w.sm.reservePools) > 0 && w.sm.state != hotRestartState {
+						var bad []string
+						for p := 0; p < w.np; p++ {
+							if w.sm.reservePools[p] == nil {
+								bad = append(bad, fmt.Sprintf("pool %d was never swapped", p+1))
+							} else if e := w.sm.pools[p].Session().epochID; e != w.sm.epoch {
+								bad = append(bad, fmt.Sprintf("pool %d is on a session of epoch %d", p+1, e))
+							}
+						}
+						if len(bad) > 0 {
+							note("completed-not-swapped", fmt.Sprintf("the manager declared the hand-over to epoch %d complete (acknowledgements sent) but %s", w.sm.epoch, strings.Join(bad, ", ")))
+						}
+					}
+					w.sm.RUnlock()
 				}
 			}
 			time.Sleep(4 * time.Millisecond)
@@ -856,7 +890,7 @@ func (w *hrWorld) waitFor(d time.Duration, f func() bool) bool {
 		if f() {
 			return true
 		}
-		if time.Now().After(deadline) {
+		if time.Now().After(deadline) || atomic.LoadInt32(&w.abort) == 1 {
 			return false
 		}
 		time.Sleep(3 * time.Millisecond)
@@ -938,7 +972,7 @@ func (w *hrWorld) registerAny() {
 }
 
 // register the session that step st is predicted to create (id = number of sessions before + 1)
-func (w *hrWorld) registerNew(prev, x *hrExpect, out *hrOutcome) string {
+func (w *hrWorld) registerNew(prev, x *hrExpect, out *hrOutcome, limit time.Duration) string {
 	if x == nil || prev == nil || len(x.Sess) <= len(prev.Sess) {
 		return ""
 	}
@@ -952,7 +986,7 @@ func (w *hrWorld) registerNew(prev, x *hrExpect, out *hrOutcome) string {
 		}
 	}
 	var got *Session
-	ok := w.waitFor(hrWaitLimit, func() bool {
+	ok := w.waitFor(limit, func() bool {
 		w.sm.RLock()
 		defer w.sm.RUnlock()
 		var s *Session
@@ -976,7 +1010,7 @@ func (w *hrWorld) registerNew(prev, x *hrExpect, out *hrOutcome) string {
 		return true
 	})
 	if !ok {
-		return fmt.Sprintf("the model creates session %d for pool %d here, the code did not within %v", id, pool+1, hrWaitLimit)
+		return fmt.Sprintf("the model creates session %d for pool %d here, the code did not within %v", id, pool+1, limit)
 	}
 	w.mu.Lock()
 	w.cli[id] = got
@@ -1027,6 +1061,9 @@ func (w *hrWorld) violT(sc *hrScenario, out *hrOutcome, kind, detail string) {
 }
 
 func (w *hrWorld) viol(sc *hrScenario, out *hrOutcome, kind, detail string) {
+	if atomic.LoadInt32(&w.abort) == 1 && (kind == "listener-stuck" || kind == "manager-stuck" || kind == "close-hangs" || kind == "not-notified") {
+		return // the waits were cut short because the run was aborted; the monitor has reported why
+	}
 	out.violations = append(out.violations, hrViolation{Property: sc.Prop, Kind: kind, Scenario: sc.Name, Detail: detail,
 		NP: sc.NP, Observe: sc.Observe, Steps: hrStripSteps(sc.Steps)})
 }
@@ -1151,6 +1188,15 @@ func hrRunScenario(sc *hrScenario, job *hrJob) (out hrOutcome) {
 			w.viol(sc, &out, "panic", fmt.Sprintf("panic while replaying: %v", r))
 		}
 	}()
+	w.maxSessions = sc.NP + len(sc.Steps) + 3
+	if !sc.Raw {
+		w.maxSessions = sc.NP + 2
+		for _, q := range sc.Steps {
+			if q.X != nil && len(q.X.Sess)+2 > w.maxSessions {
+				w.maxSessions = len(q.X.Sess) + 2
+			}
+		}
+	}
 	w.startTraffic()
 	w.startMonitor(job.Known)
 	defer func() {
@@ -1191,6 +1237,9 @@ func hrRunScenario(sc *hrScenario, job *hrJob) (out hrOutcome) {
 			x = nil
 		}
 		rawMode := sc.Raw || oracleOnly
+		if atomic.LoadInt32(&w.abort) == 1 {
+			return
+		}
 		out.steps++
 		w.prevX, w.curX = nil, nil
 		if !rawMode {
@@ -1515,7 +1564,14 @@ func hrRunScenario(sc *hrScenario, job *hrJob) (out hrOutcome) {
 			w.registerAny()
 			continue
 		}
-		if msg := w.registerNew(prev, x, &out); msg != "" {
+		regLimit := hrWaitLimit
+		firstSeen = time.Now().Add(time.Second)
+		if st.A == "MOnHR" {
+			// the real handler has returned: the session it creates is there now or never
+			regLimit = 50 * time.Millisecond
+			firstSeen = time.Now()
+		}
+		if msg := w.registerNew(prev, x, &out, regLimit); msg != "" {
 			drifted(si, msg)
 			if out.slip {
 				return
@@ -1524,6 +1580,7 @@ func hrRunScenario(sc *hrScenario, job *hrJob) (out hrOutcome) {
 			w.registerAny()
 			continue
 		}
+		firstSeen = time.Time{}
 		// compare at settled points: the next step is one the harness drives (or the behaviour ends)
 		if x != nil && x.Quiet {
 			var d string
@@ -1575,7 +1632,7 @@ func hrRunScenario(sc *hrScenario, job *hrJob) (out hrOutcome) {
 		return
 	}
 	// C17: with a server reachable and the manager open every pool serves again after a few rebuild intervals
-	if w.closeDone == nil && (!w.oldClosed || w.newL != nil) {
+	if w.closeDone == nil && (!w.oldClosed || w.newL != nil) && atomic.LoadInt32(&w.abort) == 0 {
 		hrObserveHeal(w, sc, job, &out)
 	}
 	w.mu.Lock()
@@ -1768,6 +1825,15 @@ func TestVS_HotRestart(t *testing.T) {
 		}()
 	}
 	wg.Wait()
+	hrPanicMu.Lock()
+	for _, pmsg := range hrPanics {
+		prop := "C16"
+		if len(job.Scenarios) > 0 {
+			prop = job.Scenarios[0].Prop
+		}
+		res.Violations = append(res.Violations, hrViolation{Property: prop, Kind: "panic", Scenario: "(process)", Detail: pmsg, Steps: []hrStep{}})
+	}
+	hrPanicMu.Unlock()
 	hrRunFree(&job, &res)
 	b, _ := json.Marshal(res)
 	if err := os.WriteFile(os.Getenv("VS_OUT"), b, 0o644); err != nil {
